@@ -6,7 +6,7 @@ Local Open Scope Z_scope.
 
 Definition rank1 (dims : list Z) : bool := match dims with [_] => true | _ => false end.
 
-(* shapes on which the access paths work at all: struct members of rank >= 3 are always rejected *)
+(* shapes on which the access paths work at all: reads of struct members of rank >= 3 are always rejected *)
 Definition supported (ak : akind) (dims : list Z) : Prop :=
   match ak, dims with AMember, _ :: _ :: _ :: _ => False | _, _ => True end.
 
@@ -38,7 +38,7 @@ Proof.
     - apply Nat.eqb_neq in E. split; [discriminate|]. intros [H _].
       apply in_range_length in H. rewrite map_length in H. contradiction. }
   destruct dims as [|n [|n2 ds]].
-  - (* rank 0 *) cbn [resolve]. destruct ak; apply ND; reflexivity.
+  - (* rank 0 *) cbn [resolve]. destruct ak, m; apply ND; reflexivity.
   - (* rank 1 *) cbn [resolve rank1].
     destruct idxs as [|i [|i2 is_]]; cbn [map in_range]; try (split; [discriminate|tauto]).
     set (i' := conv (narrows ak true m) i).
@@ -47,9 +47,9 @@ Proof.
       try (split; [discriminate|intros [[? _] _]; lia]).
     split; [intros G; injection G as <-; split; [split; [lia|exact I]|reflexivity]|intros [_ ->]; reflexivity].
   - (* rank >= 2 *) destruct ak.
-    + cbn [resolve]. apply ND. reflexivity.
+    + cbn [resolve]. destruct m; apply ND; reflexivity.
     + destruct ds as [|n3 ds]; [|contradiction Hs].
-      cbn [resolve]. apply ND. reflexivity.
+      cbn [resolve]. destruct m; apply ND; reflexivity.
 Qed.
 
 Lemma resolve_accepts_iff_l ak m dims idxs : supported ak dims -> Forall int_range idxs ->
@@ -110,13 +110,13 @@ Proof.
        | None => inr EBounds end) = inr e -> e = EBounds).
   { rewrite L, Nat.eqb_refl. cbn [negb]. destruct (calc_flat _ _); [destruct (_ <? _)|]; congruence. }
   destruct dims as [|n [|n2 ds]].
-  - cbn [resolve]. destruct ak; intros H; left; apply ND; exact H.
+  - cbn [resolve]. destruct ak, m; intros H; left; apply ND; exact H.
   - cbn [resolve rank1]. destruct idxs as [|i [|? ?]]; try discriminate L.
     destruct ((_ <? 0) || (n <=? _)); [|discriminate].
     destruct ak, m; intros H; injection H as <-; auto.
   - destruct ak.
-    + cbn [resolve]. intros H; left; apply ND; exact H.
-    + destruct ds; cbn [resolve]; intros H; left; [apply ND; exact H|congruence].
+    + cbn [resolve]. destruct m; intros H; left; apply ND; exact H.
+    + destruct ds, m; cbn [resolve]; intros H; left; try (apply ND; exact H); congruence.
 Qed.
 
 (* ---------- pointer arithmetic on addresses ---------- *)
